@@ -199,3 +199,304 @@ Definition rx_case_ok (c : rxcase) : bool :=
       Nat.eqb (rx_hcode s) (rc_handler c)
   | None => false
   end.
+
+(* ====================================================================== *)
+(* MUC: Channel.JoinPresence / LeavePresence and Client.HandlePresence     *)
+(* (pinned behaviour; muc/* belongs to the C18 engineer)                   *)
+(* ====================================================================== *)
+
+(* One Channel: its single join attempt (Client.JoinPresence creates the
+   channel and calls Channel.JoinPresence once) and any number of Leave calls.
+   The goroutine each call starts to send its presence and to wait for an
+   error reply is a call of C06/Model.v; here it appears only through
+   [MErrReply c]: "an error reply for c's presence was handed to that
+   goroutine, which now offers it on errChan (or gives up on ctx.Done)". *)
+
+Inductive mkind := MJoin | MLeave.
+Inductive mout := MJoined | MLeft | MErr | MCtxErr.
+Inductive mpc :=
+| MSpawned          (* goroutine started; before the final select (yield point) *)
+| MWait             (* in the final select: errChan / joinChan or depart / ctx.Done *)
+| MRet (o : mout).
+
+Record mcall := mkmcall { m_kind : mkind; m_canc : bool; m_pc : mpc; m_err : bool (* error reply offered on errChan *) }.
+
+Inductive mhpc :=
+| MHIdle
+| MHAvail            (* available presence of a managed room: at `select { case c := <-channel.join` *)
+| MHTaken (j : nat)  (* joinCtx of call j taken from the buffer; at the inner select *)
+| MHUnavail.         (* unavailable presence: entry deleted; before the non-blocking depart send *)
+
+Record mucstate := mkmuc {
+  mu_calls : list mcall;
+  mu_joinbuf : option nat;     (* channel.join, capacity 1: the joinCtx of call j, if any *)
+  mu_h : mhpc;
+  mu_user : nat;               (* HandleUserPresence invocations *)
+  mu_lost : nat }.             (* depart notifications that found no receiver *)
+
+Definition muc_init : mucstate := mkmuc [] None MHIdle 0 0.
+
+Inductive muclabel :=
+| MStartJoin            (* JoinPresence: joinCtx put into the buffer, goroutine started *)
+| MStartLeave           (* LeavePresence: goroutine started *)
+| MEnter (c : nat)      (* the call enters its final select *)
+| MCancel (c : nat)
+| MCtx (c : nat)        (* the call's select takes ctx.Done *)
+| MErrReply (c : nat)   (* an error reply reached the call's goroutine *)
+| MErrRecv (c : nat)    (* the call's select takes errChan *)
+| MAvailArrive          (* the handler is called with an available presence of the room *)
+| MTake                 (* `case c := <-channel.join` or `default` *)
+| MJoinRecv (j : nat)   (* rendezvous on joinChan *)
+| MSkip                 (* inner select takes c.done: goto selectJoin *)
+| MUnavailArrive
+| MDepartTo (l : nat)   (* the non-blocking send finds Leave call l in its select *)
+| MDepartLost.          (* ... finds nobody: default branch *)
+
+Definition is_mret (p : mpc) : bool := match p with MRet _ => true | _ => false end.
+
+Definition set_mpc (c : mcall) (p : mpc) : mcall := mkmcall (m_kind c) (m_canc c) p (m_err c).
+
+Definition muc_set_calls (s : mucstate) (l : list mcall) : mucstate :=
+  mkmuc l (mu_joinbuf s) (mu_h s) (mu_user s) (mu_lost s).
+Definition muc_set_h (s : mucstate) (h : mhpc) : mucstate :=
+  mkmuc (mu_calls s) (mu_joinbuf s) h (mu_user s) (mu_lost s).
+
+Definition mcall_step (s : mucstate) (i : nat) (f : mcall -> option mcall) : option mucstate :=
+  match nth_error (mu_calls s) i with
+  | Some c => match f c with
+              | Some c' => Some (muc_set_calls s (upd (mu_calls s) i c'))
+              | None => None
+              end
+  | None => None
+  end.
+
+(* the derived context of a call is done when the caller's context is
+   cancelled or the call has returned (deferred cancel) *)
+Definition mctx_done (c : mcall) : bool := m_canc c || is_mret (m_pc c).
+
+Definition waiting_leave (c : mcall) : bool :=
+  match m_kind c, m_pc c with MLeave, MWait => true | _, _ => false end.
+
+Definition muc_step (s : mucstate) (l : muclabel) : option mucstate :=
+  match l with
+  | MStartJoin =>
+      match mu_calls s, mu_joinbuf s with
+      | [], None => Some (mkmuc [mkmcall MJoin false MSpawned false] (Some 0) (mu_h s) (mu_user s) (mu_lost s))
+      | _, _ => None           (* one join attempt per channel in this model *)
+      end
+  | MStartLeave =>
+      match mu_calls s with
+      | [] => None             (* a Channel exists only through a join attempt *)
+      | _ => Some (muc_set_calls s (mu_calls s ++ [mkmcall MLeave false MSpawned false]))
+      end
+  | MEnter c => mcall_step s c (fun x => match m_pc x with MSpawned => Some (set_mpc x MWait) | _ => None end)
+  | MCancel c => mcall_step s c (fun x => Some (mkmcall (m_kind x) true (m_pc x) (m_err x)))
+  | MCtx c => mcall_step s c (fun x => match m_pc x with
+                                       | MWait => if m_canc x then Some (set_mpc x (MRet MCtxErr)) else None
+                                       | _ => None
+                                       end)
+  | MErrReply c =>
+      mcall_step s c (fun x => if is_mret (m_pc x) || m_err x then None
+                               else Some (mkmcall (m_kind x) (m_canc x) (m_pc x) true))
+  | MErrRecv c => mcall_step s c (fun x => match m_pc x with
+                                           | MWait => if m_err x then Some (set_mpc x (MRet MErr)) else None
+                                           | _ => None
+                                           end)
+  | MAvailArrive => match mu_h s with MHIdle => Some (muc_set_h s MHAvail) | _ => None end
+  | MTake =>
+      match mu_h s with
+      | MHAvail =>
+          match mu_joinbuf s with
+          | Some j => Some (mkmuc (mu_calls s) None (MHTaken j) (mu_user s) (mu_lost s))
+          | None => Some (mkmuc (mu_calls s) None MHIdle (S (mu_user s)) (mu_lost s))
+          end
+      | _ => None
+      end
+  | MJoinRecv j =>
+      match mu_h s with
+      | MHTaken j' =>
+          if Nat.eqb j j' then
+            match nth_error (mu_calls s) j with
+            | Some x => match m_pc x with
+                        | MWait => Some (mkmuc (upd (mu_calls s) j (set_mpc x (MRet MJoined)))
+                                               (mu_joinbuf s) MHIdle (mu_user s) (mu_lost s))
+                        | _ => None
+                        end
+            | None => None
+            end
+          else None
+      | _ => None
+      end
+  | MSkip =>
+      match mu_h s with
+      | MHTaken j =>
+          match nth_error (mu_calls s) j with
+          | Some x => if mctx_done x then Some (muc_set_h s MHAvail) else None
+          | None => None
+          end
+      | _ => None
+      end
+  | MUnavailArrive => match mu_h s with MHIdle => Some (muc_set_h s MHUnavail) | _ => None end
+  | MDepartTo l =>
+      match mu_h s with
+      | MHUnavail =>
+          match nth_error (mu_calls s) l with
+          | Some x => if waiting_leave x
+                      then Some (mkmuc (upd (mu_calls s) l (set_mpc x (MRet MLeft)))
+                                       (mu_joinbuf s) MHIdle (mu_user s) (mu_lost s))
+                      else None
+          | None => None
+          end
+      | _ => None
+      end
+  | MDepartLost =>
+      match mu_h s with
+      | MHUnavail =>
+          if existsb waiting_leave (mu_calls s) then None
+          else Some (mkmuc (mu_calls s) (mu_joinbuf s) MHIdle (mu_user s) (S (mu_lost s)))
+      | _ => None
+      end
+  end.
+
+Inductive mcode := MCNone | MCJoined | MCLeft | MCErr | MCCtx.
+Definition mcode_eqb (a b : mcode) : bool :=
+  match a, b with
+  | MCNone, MCNone | MCJoined, MCJoined | MCLeft, MCLeft | MCErr, MCErr | MCCtx, MCCtx => true
+  | _, _ => false
+  end.
+Definition mcall_code (c : mcall) : mcode :=
+  match m_pc c with
+  | MRet MJoined => MCJoined | MRet MLeft => MCLeft | MRet MErr => MCErr | MRet MCtxErr => MCCtx
+  | _ => MCNone
+  end.
+
+Record muccase := mkmuccase { mc_trace : list muclabel; mc_codes : list mcode; mc_user : nat; mc_handler : nat }.
+
+Definition muc_case_ok (c : muccase) : bool :=
+  match run muc_step muc_init (mc_trace c) with
+  | Some s => list_eqb mcode_eqb (map mcall_code (mu_calls s)) (mc_codes c) &&
+              Nat.eqb (mu_user s) (mc_user c) &&
+              Nat.eqb (match mu_h s with MHIdle => 0 | _ => 1 end) (mc_handler c)
+  | None => false
+  end.
+
+(* ====================================================================== *)
+(* IBB: Conn.Read / handlePayload / Conn.Close / closeNoNotify             *)
+(* (pinned behaviour; ibb/* belongs to the C15 engineer)                   *)
+(* ====================================================================== *)
+
+(* One Conn.  Only what the reader's wait depends on is modelled: the number
+   of buffered bytes, whether readReady is closed, where the (single) reader
+   is, and where the handler is. *)
+
+Inductive rdpc :=
+| RdNone                     (* no Read call in progress *)
+| RdChecked                  (* saw an empty buffer, released the lock; before `<-c.readReady` *)
+| RdWaiting                  (* blocked in `<-c.readReady` *)
+| RdWoken.                   (* received; before re-locking and readBuf.Read *)
+
+Inductive rdout := RdData (n : nat) | RdEOF.
+
+Inductive ihpc :=
+| IHIdle
+| IHNotify                   (* data appended; before the non-blocking send on readReady *)
+| IHPanic.                   (* send on closed channel *)
+
+Record ibbstate := mkibb {
+  ib_buf : nat;
+  ib_closed : bool;            (* readReady closed *)
+  ib_remote_closed : bool;     (* closed by the peer (closeNoNotify): stream removed from the table *)
+  ib_rd : rdpc;
+  ib_h : ihpc;
+  ib_outs : list rdout;        (* results of completed Read calls, in order *)
+  ib_lost : nat }.             (* notifications that found no waiting reader *)
+
+Definition ibb_init : ibbstate := mkibb 0 false false RdNone IHIdle [] 0.
+
+Inductive ibblabel :=
+| IRead (cap : nat)      (* Read(b) with len(b) = cap > 0 begins: returns at once if data is buffered *)
+| IWait                  (* the reader blocks on readReady (or passes if it is closed) *)
+| IWake (cap : nat)      (* the woken reader re-locks and reads *)
+| IData (n : nat)        (* a data packet of n decoded bytes is appended by the handler *)
+| INotify                (* the handler's non-blocking send *)
+| ICloseRemote           (* close element from the peer: closeNoNotify *)
+| ICloseLocal.           (* Conn.Close by the application: readReady closed, stream stays registered *)
+
+Definition ibb_set (s : ibbstate) buf rd h outs lost : ibbstate :=
+  mkibb buf (ib_closed s) (ib_remote_closed s) rd h outs lost.
+
+Definition ibb_step (s : ibbstate) (l : ibblabel) : option ibbstate :=
+  match l with
+  | IRead cap =>
+      (* Read takes readLock, which the handler holds from IData to INotify *)
+      match ib_rd s, cap, ib_h s with
+      | RdNone, S _, IHIdle =>
+          if Nat.eqb (ib_buf s) 0 then Some (ibb_set s 0 RdChecked (ib_h s) (ib_outs s) (ib_lost s))
+          else let n := Nat.min cap (ib_buf s) in
+               Some (ibb_set s (ib_buf s - n) RdNone (ib_h s) (ib_outs s ++ [RdData n]) (ib_lost s))
+      | _, _, _ => None
+      end
+  | IWait =>
+      match ib_rd s with
+      | RdChecked => Some (ibb_set s (ib_buf s) (if ib_closed s then RdWoken else RdWaiting)
+                                   (ib_h s) (ib_outs s) (ib_lost s))
+      | _ => None
+      end
+  | IWake cap =>
+      match ib_rd s, cap, ib_h s with
+      | RdWoken, S _, IHIdle =>
+          (* bytes.Buffer.Read: (0, io.EOF) on an empty buffer *)
+          if Nat.eqb (ib_buf s) 0 then Some (ibb_set s 0 RdNone (ib_h s) (ib_outs s ++ [RdEOF]) (ib_lost s))
+          else let n := Nat.min cap (ib_buf s) in
+               Some (ibb_set s (ib_buf s - n) RdNone (ib_h s) (ib_outs s ++ [RdData n]) (ib_lost s))
+      | _, _, _ => None
+      end
+  | IData n =>
+      match ib_h s with
+      | IHIdle => if ib_remote_closed s then None   (* stream unknown: item-not-found, nothing happens *)
+                  else Some (ibb_set s (ib_buf s + n) (ib_rd s) IHNotify (ib_outs s) (ib_lost s))
+      | _ => None
+      end
+  | INotify =>
+      match ib_h s with
+      | IHNotify =>
+          if ib_closed s then Some (ibb_set s (ib_buf s) (ib_rd s) IHPanic (ib_outs s) (ib_lost s))
+          else match ib_rd s with
+               | RdWaiting => Some (ibb_set s (ib_buf s) RdWoken IHIdle (ib_outs s) (ib_lost s))
+               | _ => Some (ibb_set s (ib_buf s) (ib_rd s) IHIdle (ib_outs s) (S (ib_lost s)))
+               end
+      | _ => None
+      end
+  | ICloseRemote =>
+      match ib_h s with
+      | IHIdle => if ib_closed s then None
+                  else Some (mkibb (ib_buf s) true true
+                                   (match ib_rd s with RdWaiting => RdWoken | p => p end)
+                                   IHIdle (ib_outs s) (ib_lost s))
+      | _ => None
+      end
+  | ICloseLocal =>
+      if ib_closed s then None
+      else Some (mkibb (ib_buf s) true (ib_remote_closed s)
+                       (match ib_rd s with RdWaiting => RdWoken | p => p end)
+                       (ib_h s) (ib_outs s) (ib_lost s))
+  end.
+
+Definition rdout_eqb (a b : rdout) : bool :=
+  match a, b with
+  | RdData n, RdData m => Nat.eqb n m
+  | RdEOF, RdEOF => true
+  | _, _ => false
+  end.
+
+Definition rd_code (p : rdpc) : nat :=
+  match p with RdNone => 0 | RdChecked => 1 | RdWaiting => 2 | RdWoken => 3 end.
+
+Record ibbcase := mkibbcase { ic_trace : list ibblabel; ic_outs : list rdout; ic_rd : nat; ic_buf : nat }.
+
+Definition ibb_case_ok (c : ibbcase) : bool :=
+  match run ibb_step ibb_init (ic_trace c) with
+  | Some s => list_eqb rdout_eqb (ib_outs s) (ic_outs c) && Nat.eqb (rd_code (ib_rd s)) (ic_rd c) &&
+              Nat.eqb (ib_buf s) (ic_buf c)
+  | None => false
+  end.
